@@ -32,6 +32,7 @@ func init() {
 			{Name: "query-read-time", File: "serf/serf.go", Func: "func (s *Serf) Query(", Old: "LTime:       s.queryClock.Increment() - 1,", New: "LTime:       s.queryClock.Time(),", Expect: "R1"},
 			{Name: "query-wrong-clock", File: "serf/serf.go", Func: "func (s *Serf) Query(", Old: "s.queryClock.Increment() - 1,", New: "s.eventClock.Increment() - 1,", Expect: "R1"},
 			{Name: "userevent-offset-two", File: "serf/serf.go", Func: "func (s *Serf) UserEvent(", Old: "s.eventClock.Increment() - 1,", New: "s.eventClock.Increment() - 2,", Expect: "R2"},
+			{Name: "witness-exits-on-equal", File: "serf/lamport.go", Func: "func (l *LamportClock) Witness(", Old: "if other < cur {", New: "if other <= cur && cur > 1 {", Expect: "R2"},
 			{Name: "response-keyed-by-id", File: "serf/query.go", Func: "func newQueryResponse(", Old: "lTime:     q.LTime,", New: "lTime:     LamportTime(q.ID),", Expect: "R3"},
 		},
 	})
@@ -99,7 +100,34 @@ func runC19(c *an.Ctx) {
 	}
 	c.Floor("R1", "modifying operations on LamportClock.counter", nW, 2)
 
-	// R2/R3
+	witnessRules(c, true)
+	// R4
+	if inc := sm(c, "R4", "LamportClock", "Increment"); inc != nil {
+		adds := an.CallsTo(inc, "atomic.(*Uint64).Add")
+		ok := len(adds) == 1
+		for _, r := range an.Returns(inc) {
+			if an.Path(an.ResultValues(r)[0]) != "atomic.(*Uint64).Add(&$0.counter,c:1)" {
+				ok = false
+			}
+		}
+		c.Add(ok, "R4", "Increment:returns-add", inc, "Increment returns the value produced by its single atomic Add(1)", "result path")
+	}
+	if tm := sm(c, "R4", "LamportClock", "Time"); tm != nil {
+		ok := true
+		for _, r := range an.Returns(tm) {
+			if an.Path(an.ResultValues(r)[0]) != "atomic.(*Uint64).Load(&$0.counter)" {
+				ok = false
+			}
+		}
+		c.Add(ok, "R4", "Time:plain-load", tm, "Time is an atomic load of the counter", "result path")
+	}
+}
+
+
+// witnessRules checks the shape of LamportClock.Witness (C19.R2/R3). C06 and
+// C03 rely on its post-condition (after Witness(v) the clock exceeds v), so
+// C06 re-checks it with wrap=false (the MaxUint64 obligation stays C19's).
+func witnessRules(c *an.Ctx, wrap bool) {
 	if w := sm(c, "R2", "LamportClock", "Witness"); w != nil {
 		load := "atomic.(*Uint64).Load(&$0.counter)"
 		cas := an.CallsTo(w, "atomic.(*Uint64).CompareAndSwap")
@@ -139,8 +167,10 @@ func runC19(c *an.Ctx) {
 				}
 			}
 			c.Add(okRetry, "R2", "Witness:retry-reloads", k, "a failed CAS leads back to a fresh load before the next CAS", "reach/cut from the failed edge")
-			noWrap := anyGuard(w, k, an.Cmp{L: "$1", Op: "!=", R: maxU64}, an.Cmp{L: "$1", Op: "<", R: maxU64})
-			c.Add(noWrap, "R3", "Witness:no-wrap", k, "other+1 cannot wrap: the CAS is dominated by other != MaxUint64", "edge dominance")
+			if wrap {
+				noWrap := anyGuard(w, k, an.Cmp{L: "$1", Op: "!=", R: maxU64}, an.Cmp{L: "$1", Op: "<", R: maxU64})
+				c.Add(noWrap, "R3", "Witness:no-wrap", k, "other+1 cannot wrap: the CAS is dominated by other != MaxUint64", "edge dominance")
+			}
 		}
 		// every return is behind other < loaded or a successful CAS
 		for _, r := range an.Returns(w) {
@@ -156,32 +186,14 @@ func runC19(c *an.Ctx) {
 			c.Add(ok, "R2", "Witness:post-condition", r, "Witness returns only when the counter already exceeds the value or its CAS to value+1 succeeded", "edge dominance per return")
 		}
 	}
-	// R4
-	if inc := sm(c, "R4", "LamportClock", "Increment"); inc != nil {
-		adds := an.CallsTo(inc, "atomic.(*Uint64).Add")
-		ok := len(adds) == 1
-		for _, r := range an.Returns(inc) {
-			if an.Path(an.ResultValues(r)[0]) != "atomic.(*Uint64).Add(&$0.counter,c:1)" {
-				ok = false
-			}
-		}
-		c.Add(ok, "R4", "Increment:returns-add", inc, "Increment returns the value produced by its single atomic Add(1)", "result path")
-	}
-	if tm := sm(c, "R4", "LamportClock", "Time"); tm != nil {
-		ok := true
-		for _, r := range an.Returns(tm) {
-			if an.Path(an.ResultValues(r)[0]) != "atomic.(*Uint64).Load(&$0.counter)" {
-				ok = false
-			}
-		}
-		c.Add(ok, "R4", "Time:plain-load", tm, "Time is an atomic load of the counter", "result path")
-	}
 }
 
 func runC06(c *an.Ctx) {
 	c.Rule("R1 the LTime of an originated messageUserEvent / messageQuery is (Increment() on the matching clock) ± constant: one atomic read-modify-write")
 	c.Rule("R2 the offset is >= -1 (value >= clock at call entry)")
 	c.Rule("R3 the query-response table is keyed by that same LTime")
+	c.Rule("R2' (shared with C19) Witness(v) returns only with the clock above v, so an originated time exceeds every time witnessed before the call")
+	witnessRules(c, false)
 	for _, k := range []struct{ method, msg, clock string }{{"UserEvent", "messageUserEvent", "eventClock"}, {"Query", "messageQuery", "queryClock"}} {
 		fn := sm(c, "R1", "Serf", k.method)
 		if fn == nil {
